@@ -661,7 +661,7 @@ class SCML_Supervised(_BaseSCML, TransformerMixin):
           basis[start: finish, :] = normalized_scalings
         except ValueError:
           # handle tail
-          basis[start:, :] = normalized_scalings[:n_basis-start]
+          basis[start:, :] = normalized_scalings[:max(n_basis-start, 0)]
           break
 
     return basis, n_basis
